@@ -87,6 +87,10 @@ theorem names_css_of_cyan_magenta :
     (lookupName "cyan").isSome = true → (lookupName "magenta").isSome = true → ∀ p ∈ cssNames, NameOk p := by
   decide +kernel
 
+/-- conversely, every name tcell lists is a CSS name and carries the CSS value (no non-standard extras, no wrong value) -/
+theorem names_subset_css : ∀ p ∈ Gen.colorNames, valid p.2 = true ∧ (cssValue p.1).map (fun v => (v : Int)) = some (hex p.2) := by
+  decide +kernel
+
 /-- `GetColor` returns the table entry for a known name -/
 theorem getColor_name (n : String) (c : Nat) (h : lookupName n = some c) : getColor n = c := by
   unfold getColor; rw [h]
@@ -256,6 +260,23 @@ theorem paletteColor_valid (i : Int) : valid (paletteColor i) = true := by
   have : fValid.testBit 32 = true := by decide
   rw [this]; simp
 
+/-- all constructors stay inside uint64 -/
+theorem results_lt (v : Int) (i : Int) (c : Nat) (hc : c < 2^64) :
+    newHexColor v < 2^64 ∧ paletteColor i < 2^64 ∧ trueColor c < 2^64 := by
+  have hs : ∀ x : Int, ofSigned x < 2^64 := ofSigned_lt
+  have f1 : fIsRGB < 2^64 := by decide
+  have f2 : fValid < 2^64 := by decide
+  refine ⟨?_, ?_, ?_⟩
+  · unfold newHexColor
+    exact Nat.or_lt_two_pow (Nat.or_lt_two_pow f1 (hs v)) f2
+  · unfold paletteColor
+    exact Nat.or_lt_two_pow (hs i) f2
+  · unfold trueColor
+    split
+    · decide
+    · split
+      · exact Nat.or_lt_two_pow hc f2
+      · exact Nat.or_lt_two_pow (Nat.or_lt_two_pow (hs _) f1) f2
 /-! ## FindColor, for every metric, colour and palette -/
 
 section FindColor
